@@ -133,7 +133,7 @@ Denotation ==
                 xv == Horner([k \in 1..Len(xs) |-> xs[k] - 48], 1, Len(xs), 0) IN
               /\ d.sig = dm.sig /\ d.neg = dm.neg /\ d.zero = dm.zero
               /\ ~d.zero => d.e10 = dm.e10 + (IF b[n.x1 - 1] = 45 THEN -xv ELSE xv)
-       /\ (d.e10 < 0 \/ d.nsig + d.e10 <= 9) => Cardinality({r \in -3..1200 : IntOk(d, r)}) \in (IF d.e10 < 0 /\ ~d.zero THEN {0, 1, 2} ELSE {0, 1})
+       /\ (d.e10 < 0 \/ d.nsig + d.e10 <= 9) => Cardinality({r \in -12..120 : IntOk(d, r)}) \in (IF d.e10 < 0 /\ ~d.zero THEN {0, 1, 2} ELSE {0, 1})
 
 \* L10: the verdict accepts the specified result and nothing with another code
 ObsOf(r) == [code |-> r.code, range |-> r.range, dims |-> r.dims, errs |-> <<>>, canary |-> TRUE,
